@@ -112,7 +112,8 @@ func genDSpec(t *rapid.T) []int64 {
 	return ds
 }
 
-var conflicts = []string{"counter-then-gauge", "gauge-then-counter", "timer-then-histogram", "histogram-then-timer", "counter-other-tagkeys", "gauge-other-tagkeys", "histogram-other-tagkeys", "timer-other-tagkeys", "counter-then-timer", "histogram-then-counter"}
+var conflicts = []string{"counter-then-gauge", "gauge-then-counter", "timer-then-histogram", "histogram-then-timer", "counter-other-tagkeys", "gauge-other-tagkeys", "histogram-other-tagkeys", "timer-other-tagkeys", "counter-then-timer", "histogram-then-counter",
+	"gauge-then-timer", "timer-then-gauge", "gauge-then-histogram", "histogram-then-gauge", "timer-then-counter", "counter-then-histogram"}
 
 func gen(t *rapid.T) Case {
 	c := Case{TimerHist: rapid.Bool().Draw(t, "timerHist"), PanicCB: rapid.IntRange(0, 2).Draw(t, "panicCB") == 0}
@@ -630,7 +631,7 @@ func run(c Case) (pbt.Outcome, error) {
 func TestC17(t *testing.T) {
 	pbt.Main(t, pbt.Prop[Case]{
 		ID: "C17", Name: "prometheus",
-		Rule: "rapid-generated histories (1..30 ops) on a tally root whose cached reporter is the Prometheus reporter on a fresh registry (separator '_', Prometheus sanitizer; timers as summaries or histograms; error callback returning or panicking with a sentinel; in a quarter of the cases the reporter is built through Configuration.NewReporter - harness callback, onError \"none\" where nothing may panic, or the default onError where only the registration error itself may be the panic value): counters (non-negative deltas), gauges (hostile float bits), timers, value and duration histograms with GENERATED strictly increasing finite specs (1..8 bounds from pools of decimals, huge/tiny magnitudes, one-ulp neighbours; durations ns..11 days incl. millisecond-granular bounds above 1 s) and samples on / one ulp or ns above and below / around the bounds, 1..4 tagged scopes with the same tag keys and different values, report passes, pre-registration of counter/gauge/timer families through the reporter's Register* API with the tag keys in either order (before or after first use; values must be exposed as without it), and conflict programs (a name reused for another kind: counter/gauge, timer/histogram, counter/timer, histogram/counter; or with other tag keys) whose result is then used through every method. Oracle after a final pass: Gather() shows counter == sum, gauge == last update (bits), cumulative bucket counts == #samples <= bound with bounds == spec (durations in seconds) and total == #samples, timer count == #values, one family per name and one series per tag-value combination; conflicts: the rejected registration reaches the error callback, the same request made on the reporter directly reaches it again and returns a non-nil usable metric, no panic other than the sentinel, at any point, and a rejected registration with other tag keys leaves the first, accepted family exposed with its values. Non-trivial: a sample equal to a bound, or >=2 series in a family, or a cross-kind/tag-key conflict. Distinct: FNV-64 of the case JSON.",
+		Rule: "rapid-generated histories (1..30 ops) on a tally root whose cached reporter is the Prometheus reporter on a fresh registry (separator '_', Prometheus sanitizer; timers as summaries or histograms; error callback returning or panicking with a sentinel; in a quarter of the cases the reporter is built through Configuration.NewReporter - harness callback, onError \"none\" where nothing may panic, or the default onError where only the registration error itself may be the panic value): counters (non-negative deltas), gauges (hostile float bits), timers, value and duration histograms with GENERATED strictly increasing finite specs (1..8 bounds from pools of decimals, huge/tiny magnitudes, one-ulp neighbours; durations ns..11 days incl. millisecond-granular bounds above 1 s) and samples on / one ulp or ns above and below / around the bounds, 1..4 tagged scopes with the same tag keys and different values, report passes, pre-registration of counter/gauge/timer families through the reporter's Register* API with the tag keys in either order (before or after first use; values must be exposed as without it), and conflict programs (a name reused for another kind: every ordered pair of counter, gauge, timer and histogram; or with other tag keys) whose result is then used through every method. Oracle after a final pass: Gather() shows counter == sum, gauge == last update (bits), cumulative bucket counts == #samples <= bound with bounds == spec (durations in seconds) and total == #samples, timer count == #values, one family per name and one series per tag-value combination; conflicts: the rejected registration reaches the error callback, the same request made on the reporter directly reaches it again and returns a non-nil usable metric, no panic other than the sentinel, at any point, and a rejected registration with other tag keys leaves the first, accepted family exposed with its values. Non-trivial: a sample equal to a bound, or >=2 series in a family, or a cross-kind/tag-key conflict. Distinct: FNV-64 of the case JSON.",
 		Gen:  gen, Run: run, HangAfter: 20 * time.Second,
 	})
 }
